@@ -91,6 +91,25 @@ def run(ctx):
                 r.fail(rule, 'handle_notification:add', 'the recorded acknowledgement is not (subscription_id, notification.sequence_number)', detail='%s, %s' % (a1, a2), loc=adds[0].loc)
         else:
             r.fail(rule, 'handle_notification:add', 'handle_notification records %d acknowledgements or not on every path' % len(adds), loc=hb.loc)
+    # ---------------- the accessors move whole vectors, unconditionally
+    rule = 'accessors-lossless'
+    for fn, rx in (('re_queue_acknowledgements', r'Vec::(extend|append|extend_from_slice)$|Extend::extend$'), ('add_acknowledgement', r'Vec::push$'), ('take_acknowledgements', r'mem::take$|mem::replace$')):
+        fb = db.body(ST + fn)
+        key = fn
+        if fb is None:
+            r.lost(rule, key, fn + ' not found'); continue
+        Ff = ctx.facts(fb)
+        ops = [c for c in fb.calls() if re.search(rx, c.callee) and '.acknowledgements' in fmt_sym(fb, Ff.sym_operand(c.args[0]))]
+        rets = fb.return_blocks()
+        branches = [bi for bi in range(len(fb.blocks)) if fb.term(bi)[0] == 'switch' and not fb.is_cleanup(bi)]
+        if len(ops) == 1 and all(fb.dominates(ops[0].bb, rb) for rb in rets) and not branches:
+            if fn == 're_queue_acknowledgements':
+                a = fmt_sym(fb, Ff.sym_operand(ops[0].args[1]))
+                if not re.search(r'^(IntoIterator::into_iter\()?acks\(_\d+\)\)?$', a):
+                    r.fail(rule, key, 're_queue_acknowledgements does not put back the whole vector it was given (%s)' % a[:80], loc=fb.loc); continue
+            r.ok(rule, key, '%s performs one unconditional whole-value operation on the list' % fn, loc=fb.loc)
+        else:
+            r.fail(rule, key, '%s is no longer a single unconditional operation on the acknowledgement list (%d ops, %d branches): acknowledgements could be lost or duplicated' % (fn, len(ops), len(branches)), loc=fb.loc)
     # ---------------- who touches the list
     rule = 'ack-list-owners'
     allowed = {ST + 'take_acknowledgements', ST + 'add_acknowledgement', ST + 're_queue_acknowledgements'}
@@ -115,4 +134,4 @@ def run(ctx):
         r.ok(rule, 'acknowledgements:owners', 'the pending acknowledgement list is accessed only by take_/add_/re_queue_acknowledgement(s)')
     else:
         r.lost(rule, 'acknowledgements:owners', 'expected the three accessor functions, found %s' % sorted(touching))
-    r.floor('C36', 'obligations', len(r.obls), 6)
+    r.floor('C36', 'obligations', len(r.obls), 9)
